@@ -44,7 +44,7 @@ func fuzzFamily(f *testing.F, family, model string) {
 		if len(raw) > 0 {
 			files["code/router.raw"] = string(raw)
 		}
-		c := &props.Case{Property: Property, Family: family, Files: files,
+		c := &props.Case{Property: Property, Family: family, Files: encodeFiles(files),
 			Params: map[string]string{"dev": "device", "spoc": "code/router"}, Gen: "native fuzzing"}
 		v := props.Judge(t, fuzzEv, Oracle, c, nil)
 		if v.Status == props.Discard {
